@@ -64,11 +64,11 @@ CLAIMS = {
    technique="Lean 4 proof (symbolic execution refinement of the op term to a pure spec, decide +kernel over the 65536-entry flag table) + reference-oracle differential",
    design="§5 C02"),
  'C03': dict(
-   text="Proved about the pure specification SigPure.multisig (well-formed inputs): its verdict is the greedy matching verdict; SOUNDNESS unconditional - true implies the signatures are pairwise distinct and matched, in order, each to a different listed key under which it is valid (sub-multiset of the keys), so fewer than m distinct signers never pass; "
+   text="Proved: the OP_CHECK_MULTISIG op term of the VM model computes the pure specification SigPure.multisig - with the n keys on top of the m signatures it ends with exactly the specification's Boolean on the remaining stack or with exactly its error (checkMultisig_instruction, big-step, via refinement lemmas for its two loops and CHECK_SIG). About the specification (well-formed inputs): its verdict is the greedy matching verdict; SOUNDNESS unconditional - true implies the signatures are pairwise distinct and matched, in order, each to a different listed key under which it is valid (sub-multiset of the keys), so fewer than m distinct signers never pass; "
         "COMPLETENESS and ORDER INDEPENDENCE (any permutation of keys and of signatures) under the unique-signer hypothesis; an error is never true. "
         "Tie: the pure specification is compared with the implementation directly (MSPURE lines) and the VM op term through RUN lines; every case is judged on the implementation alone by brute-force injective matching with PyNaCl verify over listed signers / outsiders / duplicates / flag variants / malformed items in shuffled (thorough: all) orders; make_multisig_lock's quorum guard and bytes over bytes/VerifyKey key lists.",
-   note="the op-term-to-pure-spec refinement is proved for CHECK_SIG (C02) but for CHECK_MULTISIG it is tied differentially, not proved; unique signer is a named hypothesis.",
-   technique="Lean 4 proof (greedy matching soundness/completeness over List.Subperm, Mathlib) + brute-force matching oracle + differential correspondence of pure spec and op term",
+   note="unique signer is a named hypothesis of completeness / order independence; checkMultisig_instruction assumes no signature-extension plugin and the stated stack-room / item-size side conditions.",
+   technique="Lean 4 proof (op-term refinement to the pure spec; greedy matching soundness/completeness over List.Subperm, Mathlib) + brute-force matching oracle + differential correspondence of pure spec and op term",
    design="§5 C03"),
  'C09': dict(
    text="In the model the configuration is a read-only parameter closed over by the op table and the interpreter hands the same table and limits to every nested run (stated as equations); proved: SET_FLAG always errors and UNSET_FLAG is a no-op on every flag (the full statement of known finding K2); "
